@@ -751,7 +751,15 @@ func (fc *FnCtx) ret(x *ssa.Return, st *State, g *smt.Term, where string) {
 			vars[fc.C.Results[i]] = v
 		}
 	}
+	// named locals of the function are visible in ensures clauses (as of the return)
+	fc.retLocal = func(n string) (Val, bool) {
+		if _, isParamOrResult := vars[n]; isParamOrResult {
+			return Val{}, false // the contract's own names win
+		}
+		return fc.localVar(n, x.Block(), x, st)
+	}
 	fc.checkEnsures(vars, st, g, where)
+	fc.retLocal = nil
 }
 
 func (fc *FnCtx) checkEnsures(vars map[string]Val, st *State, g *smt.Term, where string) {
@@ -761,7 +769,7 @@ func (fc *FnCtx) checkEnsures(vars map[string]Val, st *State, g *smt.Term, where
 		fc.Used["definition at construction in "+fc.Name+": "+d.Text+" (the object is fresh and its fields are never written afterwards: constfield scan)"] = true
 	}
 	for _, e := range fc.C.Ensures {
-		ec := &evalCtx{fc: fc, vars: vars, cur: st, old: fc.entryView(), atReturn: true}
+		ec := &evalCtx{fc: fc, vars: vars, cur: st, old: fc.entryView(), atReturn: true, local: fc.retLocal}
 		goal := ec.booleanOrUnprovable(e.E)
 		tags := e.Tags
 		fc.oblige("ensures", e.Label, tags, g, goal, where, e.Text)
